@@ -8,6 +8,7 @@ own type exactly once (C07.flip), writer, reader and size arithmetic derive the 
 (C07.size) and the LOGI encoding (C07.logi).  Not decided: value round trip, number formatting, behaviour at
 specific lengths.
 """
+import os
 import re
 from fractions import Fraction
 
@@ -966,5 +967,76 @@ def _run_rest(chk, fx):
             chk.instance(r_sk, key, sample=dict(function=f["q"], statement=show(n)[:90], sticky=bad))
             if bad:
                 chk.violation(r_sk, key, "%s applies %s to the file stream itself: the setting persists after this statement, so every number written to this file afterwards is formatted with it (e.g. columns padded with '0' instead of blanks)" % (f["q"], ", ".join("std::" + b for b in bad)), f["file"], n["l"])
+
+    # ---- C07.hdrpair: the header announces what the payload writer then writes
+    r_hp = chk.rule("C07.hdrpair", "every EclOutput::write overload: a header call is directly followed by the array writer of the same file flavour (formatted under isFormatted, unformatted otherwise) for the same vector whose size() the header announces; when the array writer takes an element width it is the width given to the header (the reader derives the record lengths from the header's C0nn width); a CHAR header has width sizeOfChar; the padded-string writer goes with a (CHAR, sizeOfChar) header", floor=12)
+    hx = chk.facts([OUT], files_re=r"^/repo/opm/io/eclipse/EclOutput\.hpp$")
+
+    def callname(n):
+        if n.get("k") == "MCall":
+            return n.get("m") or ""
+        if n.get("k") == "Call":
+            return (n.get("fn") or (n.get("callee") or {}).get("n") or "").split("::")[-1]
+        return ""
+
+    def hdr_walk(stmts, flavour, f):
+        for i, st in enumerate(stmts):
+            if st["k"] == "If":
+                c = show(strip(st["cond"])) if isinstance(st.get("cond"), dict) else ""
+                fl_t, fl_e = flavour, flavour
+                if c in ("this.isFormatted", "isFormatted"):
+                    fl_t, fl_e = "Formatted", "Binary"
+                elif c in ("(!this.isFormatted)", "(!isFormatted)"):
+                    fl_t, fl_e = "Binary", "Formatted"
+                hdr_walk(stmt_list(st["then"]), fl_t, f)
+                if st.get("else") is not None:
+                    hdr_walk(stmt_list(st["else"]), fl_e, f)
+                continue
+            if st["k"] == "Block":
+                hdr_walk(stmt_list(st), flavour, f)
+                continue
+            nm = callname(st)
+            m_ = re.fullmatch(r"write(Binary|Formatted)Header", nm)
+            if not m_:
+                if any(re.fullmatch(r"write(Binary|Formatted)Header", callname(x)) for x in walk(st)):
+                    chk.instance(r_hp, "%s@%d" % (f["n"], st["l"]))
+                    chk.violation(r_hp, "%s@%d" % (f["n"], st["l"]), "a header is written inside a larger statement (%s): header and payload can no longer be paired" % show(st)[:120], f["file"], st["l"])
+                continue
+            key = "%s@%d" % (os.path.basename(f["file"]), st["l"])
+            args = [show(strip(a)).replace("Opm::EclIO::", "") for a in st["a"]]
+            nxt = stmts[i + 1] if i + 1 < len(stmts) else None
+            arr = [x for x in walk(nxt) if re.fullmatch(r"write(Binary|Formatted)(Char)?Array", callname(x))] if nxt is not None else []
+            det = dict(header=args, flavour=flavour, next=show(nxt)[:160] if nxt is not None else None)
+            chk.instance(r_hp, key, sample=det)
+            probs = []
+            if flavour != m_.group(1):
+                probs.append("a %s header is written on the %s path" % (m_.group(1).lower(), (flavour or "undetermined").lower()))
+            if len(args) != 4:
+                probs.append("the header call has %d arguments" % len(args))
+            elif len(arr) != 1:
+                probs.append("the statement after the header does not write the array (%s)" % det["next"])
+            else:
+                an = callname(arr[0])
+                aargs = [show(strip(a)).replace("Opm::EclIO::", "") for a in arr[0]["a"]]
+                if not an.startswith("write" + m_.group(1)):
+                    probs.append("a %s header is followed by %s" % (m_.group(1).lower(), an))
+                if args[1] != "%s.size()" % aargs[0]:
+                    probs.append("the header announces %s elements but the payload is %s" % (args[1], aargs[0]))
+                if len(aargs) == 2 and aargs[1] != args[3]:
+                    probs.append("the header says element width %s, the payload is written with width %s" % (args[3], aargs[1]))
+                if an.endswith("CharArray") and len(aargs) == 1 and (args[2], args[3]) != ("CHAR", "sizeOfChar"):
+                    probs.append("8-character padded strings are announced as (%s, %s)" % (args[2], args[3]))
+                if an.endswith("CharArray") and args[2] not in ("CHAR", "C0NN"):
+                    probs.append("a string payload is announced as %s" % args[2])
+                if not an.endswith("CharArray") and args[2] in ("CHAR", "C0NN"):
+                    probs.append("a numeric payload is announced as %s" % args[2])
+            if len(args) == 4 and args[2] == "CHAR" and args[3] != "sizeOfChar":
+                probs.append("a CHAR header carries width %s" % args[3])
+            if probs:
+                chk.violation(r_hp, key, "%s: %s - the reader sizes and splits the records from the header, so the array cannot be read back" % (f["q"], "; ".join(probs)), f["file"], st["l"])
+
+    for f in hx.fns:
+        if f.get("body") and f["n"] == "write" and (f.get("cls") or "").endswith("EclOutput") and os.path.basename(f["file"]) in ("EclOutput.cpp", "EclOutput.hpp"):
+            hdr_walk(stmt_list(f["body"]), None, f)
 
     chk.assumptions += ["tables/ecl_layout.json: published Eclipse file-format constants"]
